@@ -311,7 +311,7 @@ impl Family for ParseTrees {
         &["C11"]
     }
     fn rule(&self) -> &'static str {
-        "all expression trees with <= 2 (quick) / <= 3 (thorough) operator nodes over 12 binary operators, unary - and !, call, field, tuple projection and method call; rendered with minimal parentheses, fully parenthesised and with 4 trivia patterns; non-trivial = trees whose minimal rendering drops at least one parenthesis pair relative to the full rendering; one case = a block of 500 trees. Parenthesised callees: 14 callee forms (name, negation, sum, comparison, call, field, projection, method call, if, match, closure, nested parentheses) x 0..3 arguments x followed by nothing / a call / a field: the tree is the call of the callee's own tree. Expressions in 16 positions (let value, statement, block value, after a statement, after an if statement, if / else branch value, while body, closure block, match arm block and value, argument, tuple / array / struct-literal component, closure value): 8 leading forms (if, match, while, call, negation, not, parenthesised, struct literal) followed by each of the 12 binary operators, a field, and three operator pairs, against the same text with the whole expression parenthesised. Tuple projection chains written without blanks (9 index chains x 5 bases x 4 continuations) against the spaced, parenthesised spelling"
+        "all expression trees with <= 2 (quick) / <= 3 (thorough) operator nodes over 12 binary operators, unary - and !, call, field, tuple projection and method call; rendered with minimal parentheses, fully parenthesised and with 4 trivia patterns; non-trivial = trees whose minimal rendering drops at least one parenthesis pair relative to the full rendering; one case = a block of 500 trees. Parenthesised callees: 14 callee forms (name, negation, sum, comparison, call, field, projection, method call, if, match, closure, nested parentheses) x 0..3 arguments x followed by nothing / a call / a field: the tree is the call of the callee's own tree. Expressions in 16 positions (let value, statement, block value, after a statement, after an if statement, if / else branch value, while body, closure block, match arm block and value, argument, tuple / array / struct-literal component, closure value): 8 leading forms (if, match, while, call, negation, not, parenthesised, struct literal) followed by each of the 12 binary operators, a field, and three operator pairs, against the same text with the whole expression parenthesised. Conditions and scrutinees of if / else-if / while / match ending in 10 ways (identifier, qualified path, call, field, projection, literal, negation, parentheses, ...) before 7 body shapes (one identifier, empty, unit, sum, call, two statements, a nested construct), bare against parenthesised. Tuple projection chains written without blanks (9 index chains x 5 bases x 4 continuations) against the spaced, parenthesised spelling"
     }
     fn cases(&self, tier: Tier) -> Box<dyn Iterator<Item = Value> + '_> {
         let maxn = if tier == Tier::Quick { 2 } else { 3 };
@@ -334,6 +334,9 @@ impl Family for ParseTrees {
         for c in 0..CONTEXTS.len() {
             v.push(json!({"kind": "position", "context": c}));
         }
+        for c in 0..COND_ENDS.len() {
+            v.push(json!({"kind": "condition-then-block", "cond": c}));
+        }
         for c in 0..PROJ_CHAINS.len() {
             for b in 0..PROJ_BASES.len() {
                 v.push(json!({"kind": "projection-chain", "chain": c, "base": b}));
@@ -354,6 +357,9 @@ impl Family for ParseTrees {
         }
         if case["kind"] == "position" {
             return run_position(case);
+        }
+        if case["kind"] == "condition-then-block" {
+            return run_condition_then_block(case);
         }
         let n = case["n"].as_u64().unwrap() as usize;
         let (lo, hi) = (case["lo"].as_u64().unwrap() as usize, case["hi"].as_u64().unwrap() as usize);
@@ -590,6 +596,81 @@ fn run_position(case: &Value) -> Report {
     if rep.findings.is_empty() {
         rep.tag("parse:position-independent");
     }
+    rep
+}
+
+/// how a condition / scrutinee can end, just before the `{` of the body
+const COND_ENDS: [(&str, &str); 10] = [
+    ("identifier", "c"),
+    ("qualified-path", "k == Color::Red"),
+    ("qualified-path-alone", "Lib::flag"),
+    ("call", "f(a)"),
+    ("field", "s.fld"),
+    ("projection", "t.0"),
+    ("literal", "k < 3"),
+    ("negated-identifier", "!c"),
+    ("parenthesised", "(c)"),
+    ("comparison-of-identifiers", "a == b"),
+];
+/// bodies that begin like the field list of a struct literal would
+const BLOCK_BODIES: [(&str, &str); 7] = [
+    ("one-identifier", "{ a }"),
+    ("empty", "{ }"),
+    ("unit", "{ () }"),
+    ("sum", "{ a + 0 }"),
+    ("call", "{ g(a) }"),
+    ("two-statements", "{ a; b }"),
+    ("nested-block-construct", "{ if a { b } else { a } }"),
+];
+
+/// `if` / `else if` / `while` / `match` with the condition written bare and in parentheses are the same tree
+fn run_condition_then_block(case: &Value) -> Report {
+    let mut rep = Report::default();
+    let (cname, cond) = COND_ENDS[case["cond"].as_u64().unwrap() as usize];
+    let parse_file = |text: &str| -> Result<String, String> {
+        match catch_unwind(AssertUnwindSafe(|| compiler::pipeline::pipeline::parse_ast_file(Path::new("m.gom"), text))) {
+            Ok(Ok(f)) => Ok(strip_astptr(&format!("{:?}", f))),
+            Ok(Err(e)) => {
+                let (stage, msg) = crate::families::common::describe_err(&e);
+                Err(format!("rejected at {}: {}", stage, msg))
+            }
+            Err(p) => Err(format!("panic: {}", panic_message(p))),
+        }
+    };
+    let mut n = 0u64;
+    for (bname, body) in BLOCK_BODIES {
+        let constructs: Vec<(&str, String)> = vec![
+            ("if", format!("fn main() {{ let r = if § {} else {}; () }}", body, body)),
+            ("else-if", format!("fn main() {{ let r = if z {{ a }} else if § {} else {}; () }}", body, body)),
+            ("while", format!("fn main() {{ while § {}; () }}", body)),
+            ("if-statement", format!("fn main() {{ if § {} else {}; () }}", body, body)),
+            ("match-scrutinee", "fn main() { let r = match § { _ => a }; () }".to_string()),
+        ];
+        for (kname, tmpl) in constructs {
+            n += 1;
+            let bare = tmpl.replace('§', cond);
+            let wrapped = tmpl.replace('§', &format!("({})", cond));
+            let site = format!("condition-ends-in={};body={};construct={}", cname, bname, kname);
+            rep.more_keys.push(fnv(&bare));
+            let replay = json!({"kind": "text", "text": bare, "oracle": "parse-only", "same_tree_as": wrapped});
+            match (parse_file(&wrapped), parse_file(&bare)) {
+                (Ok(w), Ok(b)) => {
+                    if w != b {
+                        rep.findings.push(Finding { property: "C11", class: "parse.min-vs-full".into(), site, detail: format!("{:?} is not read as {:?}", bare, wrapped), replay });
+                    }
+                }
+                (Err(e), _) => {
+                    rep.tag("machinery:condition-reference-rejected");
+                    rep.sample = Some(json!({"text": wrapped, "error": e}));
+                }
+                (_, Err(e)) => {
+                    rep.findings.push(Finding { property: "C11", class: "parse.rejected".into(), site: format!("{};msg={}", site, normalise_msg(&e)), detail: format!("{:?}: {}", bare, e), replay });
+                }
+            }
+        }
+    }
+    rep.sub_evaluations = n;
+    rep.outcome = Some(format!("condition-then-block:{}:{}", cname, rep.findings.len()));
     rep
 }
 
